@@ -1164,7 +1164,9 @@ class UGrid(DimensionConvention[UGridKind, UGridIndex]):
         """
         # Find all faces that intersect the clip geometry
         logger.info("Making clip mask")
-        face_indexes = self.strtree.query(clip_geometry, predicate='intersects')
+        # The spatial index returns hits in no particular order;
+        # mask_from_face_indexes numbers faces in the order given.
+        face_indexes = numpy.sort(self.strtree.query(clip_geometry, predicate='intersects'))
         logger.debug("Found %d intersecting faces, adding size %d buffer...", len(face_indexes), buffer)
 
         # Include all the neighbours of the intersecting faces
